@@ -1,5 +1,5 @@
 use std::num::NonZero;
-use std::panic::{RefUnwindSafe, UnwindSafe};
+use std::panic::{self, AssertUnwindSafe, RefUnwindSafe, UnwindSafe};
 use std::sync::{Arc, Mutex, mpsc};
 use std::thread::{self, JoinHandle};
 use std::{iter, mem};
@@ -127,6 +127,9 @@ impl ThreadPool {
 
     /// Executes a task on all threads in the pool, waiting for all threads to complete
     /// and returning a collection of results.
+    ///
+    /// If the task panics on any thread, the panic is re-raised on the calling thread, but only
+    /// after every thread has finished with the task.
     #[cfg_attr(test, mutants::skip)] // If work does not get enqueued, deadlocks are very easy.
     #[expect(
         clippy::needless_pass_by_ref_mut,
@@ -144,7 +147,7 @@ impl ThreadPool {
         let mut results = Vec::with_capacity(self.thread_count.get());
 
         let (mut result_txs, result_rxs): (Vec<_>, Vec<_>) =
-            iter::repeat_with(oneshot::channel::<R>)
+            iter::repeat_with(oneshot::channel::<thread::Result<R>>)
                 .take(self.thread_count.get())
                 .unzip();
 
@@ -175,7 +178,10 @@ impl ThreadPool {
                     .expect("type invariant - one command_tx per thread");
 
                 move || {
-                    let result = f();
+                    // A panicking task must not take the worker thread down with it: the panic
+                    // is handed to the caller as the result, after the task and everything it
+                    // owned is gone.
+                    let result = panic::catch_unwind(AssertUnwindSafe(f));
 
                     result_tx.send(result).expect(
                         "receiver must still exist - this is mandatory for scoped lifetime logic",
@@ -185,11 +191,25 @@ impl ThreadPool {
             .expect("worker thread must still exist - thread pool cannot operate without workers");
         }
 
+        // The lifetime erasure above is only sound if no worker is still running the task when we
+        // leave this function, by returning or by unwinding. We therefore always wait for every
+        // worker, and only then re-raise the first panic, if any.
+        let mut first_panic = None;
+
         for rx in result_rxs {
-            results.push(
-                rx.recv()
-                    .expect("worker thread failed to send result - did it panic?"),
-            );
+            match rx
+                .recv()
+                .expect("worker thread always sends a result, even if the task panics")
+            {
+                Ok(result) => results.push(result),
+                Err(payload) => {
+                    first_panic.get_or_insert(payload);
+                }
+            }
+        }
+
+        if let Some(payload) = first_panic {
+            panic::resume_unwind(payload);
         }
 
         results.into_boxed_slice()
